@@ -90,7 +90,7 @@ def run(ctx):
                 "carries the injective columns id/u/g. Program: <= 3 handle operations from {slice [a:b:k] with None/negative/out-of-range/zero "
                 "step, integer pick, pickle, copy, deepcopy} then one of to_pandas / iter_row_groups(categories?) / head(n at every "
                 "row-group boundary +-1) / count / len with columns None|subset in any order|repeated|empty|unknown and index "
-                "default|False|[]|one stored name. Confirmation stream (known findings): two index names; a partition column as index. "
+                "default|False|one available name (stored or partition column). Confirmation stream (known finding): two index names. "
                 "trivial = no handle operation and to_pandas() without arguments; distinct = distinct (dataset spec, program)")
     jobs = []
     # fixed corner datasets first, then random ones
